@@ -5,6 +5,7 @@ cached in the state is the table of legal moves of its board — established by 
 for every state produced by `step`, and checked on every generated instance (C10).
 -/
 import JumanjiModel.Env.Sudoku.Lemmas
+import JumanjiModel.Env.Sudoku.Bounds
 open Jm Jx Sudoku
 
 namespace Props.C04
@@ -124,3 +125,22 @@ theorem sudoku_obs_copied (s : State) (r c d : Int) :
     (step s r c d).2.obs = { board := (step s r c d).1.board, mask := (step s r c d).1.mask } :=
   Sudoku.obs_copied s r c d
 end Props.C12
+
+namespace Props.C01
+open PzB
+/-- the observation returned by `reset` on a generated board whose cells are −1 or digits 0..8 (`CellsInRange`; it follows
+from `Feasible`, see below): `board` ∈ [-1, 8] — tighter than the declared [-1, 9] — and `action_mask` ∈ [0,1] -/
+theorem sudoku_reset_obs_in_bounds (b : Grid Int) (h : CellsInRange b) :
+    ObsInBounds obsBounds (obsLeaves (Sudoku.reset b).2.obs) := Sudoku.reset_obs_in_bounds b h
+
+/-- the same for `step` with any cell indices and any digit of the action space (0..8), legal or not, terminal step
+included -/
+theorem sudoku_step_obs_in_bounds (s : State) (r c d : Int) (h : CellsInRange s.board) (hd : -1 ≤ d ∧ d ≤ 8) :
+    ObsInBounds obsBounds (obsLeaves (step s r c d).2.obs) := Sudoku.step_obs_in_bounds s r c d h hd
+
+/-- `CellsInRange` is implied by the hard constraint `Feasible` of C06 and preserved by every in-spec step -/
+theorem sudoku_cellsInRange_invariant :
+    (∀ b, Feasible b → CellsInRange b) ∧
+    (∀ (s : State) (r c d : Int), CellsInRange s.board → (-1 ≤ d ∧ d ≤ 8) → CellsInRange (step s r c d).1.board) :=
+  ⟨Sudoku.cellsInRange_of_feasible, Sudoku.step_cellsInRange⟩
+end Props.C01
